@@ -70,6 +70,7 @@ class Iter:
         self.step = 1
         self.bind = None       # function(st, k) binding the loop targets at the start of an iteration
         self.names = []        # python names bound by the loop header
+        self.filter = None     # function(k) -> z3 Bool: iteration slot k is skipped when false (dict tombstones)
 
 
 def analyse_for(ex, node, st, lspec):
@@ -109,10 +110,19 @@ def analyse_for(ex, node, st, lspec):
         it.bind = lambda s, k: s.vars.__setitem__(t.id, vint(k))
         return it
     if isinstance(seq.kind, KDict):
-        from .calls import dict_keys_list
+        # iteration over the insertion log of the dict as it was when the loop started; tombstones skipped.
+        # (Python raises RuntimeError if the key set changes during the iteration: not checked here.)
+        from . import dicts
         if seq.py == "dictitems":
             raise OutOfSubset("dict.items() iteration")
-        seq = dict_keys_list(seq)
+        if enum:
+            raise OutOfSubset("enumerate over a dict")
+        d0 = seq
+        it.lo, it.hi = z3.IntVal(0), dicts.D(d0).olen
+        it.ghost = (lspec.index if lspec is not None and lspec.index else "_k")
+        it.filter = lambda k: dicts.live(d0, k)
+        it.bind = lambda s, k: ex.assign(t, dicts.slot_key(d0, k), s, node)
+        return it
     if not isinstance(seq.kind, KList):
         raise OutOfSubset("%s: iteration over %r (line %d)" % (ex.fi.qual, seq.kind, node.lineno))
     it.lo, it.hi = z3.IntVal(0), list_len(seq)
@@ -168,10 +178,15 @@ def unroll(ex, node, st, it, ks):
         if cur is None:
             break
         it.bind(cur, z3.IntVal(k))
+        skipped = None
+        if it.filter is not None:
+            f = it.filter(z3.IntVal(k))
+            skipped = cur.copy(and_(cur.pc, not_(f)))
+            cur.pc = and_(cur.pc, f)
         o = ex.exec_block(node.body, cur)
         exits = merge(exits, o.brk)
         out.ret = merge(out.ret, o.ret)
-        cur = merge(o.normal, o.cont)
+        cur = merge(merge(o.normal, o.cont), skipped)
     out.normal = merge(exits, cur)
     return out
 
@@ -244,6 +259,9 @@ def cut_loop(ex, node, st, lid, lspec, it, guard, auto_range):
         for key in wh:
             k = ctx.reg.fields[key]
             h.heap[key] = [z3.Const(uid("H_%s_%s" % key), z3.ArraySort(z3.IntSort(), s)) for s in flat(k)]
+        if "$alloc" in wv and "$alloc" in st.vars and h.vars.get("$alloc") is not None:
+            # the allocation counter only grows (A-ALLOC)
+            ctx.assume(h, h.vars["$alloc"].terms[0] >= st.vars["$alloc"].terms[0])
         kk = z3.Int(uid(it.ghost)) if is_for else None
         if is_for:
             ctx.assume(h, auto_range(kk))
@@ -261,8 +279,13 @@ def cut_loop(ex, node, st, lid, lspec, it, guard, auto_range):
         if lspec.decreases is not None:
             variant0 = with_ghost(kk, lambda: to_int(ex.eval(ast.parse(lspec.decreases, mode="eval").body, b)))
             ctx.oblige(b, "%s.variant-nonneg" % name, variant0 >= 0, "loop-variant", node.lineno)
+        skipped = None
+        if is_for and it.filter is not None:
+            f = it.filter(kk)
+            skipped = b.copy(and_(b.pc, not_(f)))
+            b.pc = and_(b.pc, f)
         o = ex.exec_block(node.body, b)
-        nxt = merge(o.normal, o.cont)
+        nxt = merge(merge(o.normal, o.cont), skipped)
         if nxt is not None and not z3.is_false(nxt.pc):
             k2 = (kk + it.step) if is_for else None
             for j, hnt in enumerate(lspec.hints):
